@@ -266,7 +266,7 @@ fn check_batch_outputs(case: &Case, resources: &Resources, config_text: &str, re
         if !path.ends_with(".lua") || !path.starts_with("src/") {
             continue;
         }
-        let good = Parser::default().parse(&content).is_ok();
+        let good = guarded(|| Parser::default().parse(&content).is_ok()).unwrap_or(false);
         let out = path.replacen("src/", "out/", 1);
         if good && resources.get(&out).is_err() {
             result.failures.push(Failure {
@@ -1048,9 +1048,9 @@ fn correspondence(report: &mut Report, rng: &mut Rng) {
     for round in 0..programs {
         let size = 3 + rng.below(10) as i32;
         let text = if round < luagen::SNIPPETS.len() { luagen::SNIPPETS[round].to_owned() } else { luagen::Gen::program(rng, size) };
-        let block = match Parser::default().preserve_tokens().parse(&text) {
-            Ok(b) => b,
-            Err(_) => continue,
+        let block = match guarded(|| Parser::default().preserve_tokens().parse(&text)) {
+            Ok(Ok(b)) => b,
+            _ => continue, // error value, or a parser panic (those are judged by the exploration)
         };
         let toks = match tokens_of_debug(&format!("{:?}", block)) {
             Ok(t) => t,
@@ -1147,6 +1147,7 @@ pub fn run(report: &mut Report, replay: Option<&str>) {
     // of the exploration themselves run on the 8 MiB workers the depth probe was measured with
     std::thread::scope(|scope| {
         std::thread::Builder::new()
+            .name("c12-orchestrator".to_owned())
             .stack_size(512 * 1024 * 1024)
             .spawn_scoped(scope, || run_on_big_stack(report, replay))
             .expect("cannot spawn the orchestration thread")
